@@ -24,27 +24,29 @@ def sh(cmd, cwd=None, env=None, timeout=900):
 def one(rdir, run_tests=True):
     wt = os.path.dirname(os.path.dirname(rdir))
     tmp = tempfile.mkdtemp(prefix="rfv-")
-    env = dict(os.environ, XDG_DATA_HOME=tmp + "/data", XDG_CONFIG_HOME=tmp + "/config", XDG_CACHE_HOME=tmp + "/cache", HOME=tmp, PYTHONPATH=wt)
+    tree = tmp + "/tree"
+    os.makedirs(tree)
+    env = dict(os.environ, XDG_DATA_HOME=tmp + "/data", XDG_CONFIG_HOME=tmp + "/config", XDG_CACHE_HOME=tmp + "/cache", HOME=tmp, PYTHONPATH=tree)
     out = {"refactor": f"{os.path.basename(wt)}-{os.path.basename(rdir)}", "dir": rdir}
     try:
-        sh("git checkout -- .", cwd=wt)
-        code, o = sh(f"git apply {rdir}/patch.diff", cwd=wt)
+        # a private copy of the pristine commit: the agent may still be editing its worktree
+        code, o = sh(f"git -C {wt} archive HEAD | tar -x -C {tree}")
+        code, o = sh(f"git apply {rdir}/patch.diff", cwd=tree)
+        if code != 0:
+            code, o = sh(f"patch -p1 < {rdir}/patch.diff", cwd=tree)
         if code != 0:
             out["error"] = "patch does not apply: " + o[:160]
             return out
-        try:
-            if run_tests:
-                code, o = sh("/venv/bin/python -m pytest -q -p no:cacheprovider --timeout=900 -x", cwd=wt, env=env)
-                m = re.search(r"(\d+) passed", o)
-                out["tests_passed"] = int(m.group(1)) if m else 0
-            alarms = {}
-            for p in PROPS:
-                code, o = sh(f"./check {p} --repo {wt} --evidence-dir {tmp}/ev", cwd=VERIF)
-                if code != 0:
-                    alarms[p] = {"exit": code, "lines": [l.strip() for l in o.splitlines() if l.startswith(("  ", "ANALYSIS")) and ("—" in l or "ANALYSIS" in l)][:3]}
-            out["alarms"] = alarms
-        finally:
-            sh("git checkout -- .", cwd=wt)
+        if run_tests:
+            code, o = sh("/venv/bin/python -m pytest -q -p no:cacheprovider --timeout=900 -x", cwd=tree, env=env)
+            m = re.search(r"(\d+) passed", o)
+            out["tests_passed"] = int(m.group(1)) if m else 0
+        alarms = {}
+        for p in PROPS:
+            code, o = sh(f"./check {p} --repo {tree} --evidence-dir {tmp}/ev", cwd=VERIF)
+            if code != 0:
+                alarms[p] = {"exit": code, "lines": [l.strip() for l in o.splitlines() if l.startswith(("  ", "ANALYSIS")) and ("—" in l or "ANALYSIS" in l)][:3]}
+        out["alarms"] = alarms
     finally:
         shutil.rmtree(tmp, ignore_errors=True)
     return out
@@ -56,9 +58,9 @@ def main():
     for d in dirs:
         by_wt.setdefault(os.path.dirname(os.path.dirname(d)), []).append(d)
     results = []
-    with ThreadPoolExecutor(max_workers=5) as ex:
-        for rs in ex.map(lambda ds: [one(d) for d in ds], by_wt.values()):
-            results += rs
+    with ThreadPoolExecutor(max_workers=8) as ex:
+        for r in ex.map(one, dirs):
+            results.append(r)
     n_alarm = 0
     for r in results:
         note = ""
